@@ -158,6 +158,12 @@ def gen_spec(rng, *, neutral=False, kind=None, max_cols=4, allow_index=True,
                     ["all", "exclude_first", "exclude_last"])
         if not neutral and rng.random() < 0.15:
             spec["unique_column_names"] = True
+        if not neutral and all(c["dtype"] in ("int64", "float64") for c in cols):
+            if rng.random() < 0.35:
+                spec["checks"] = [gen_check(rng, "float64")]
+            if rng.random() < 0.2:
+                # frame-level dtype overrides the column dtypes
+                spec["dtype"] = rng.choice(["int64", "float64"])
     if allow_index and not neutral and rng.random() < 0.3:
         spec["index"] = gen_index(rng)
     return spec
@@ -227,6 +233,20 @@ def gen_table(rng, spec, nrows=None):
             continue
         cols.append({"name": fs["name"], "phys": PHYS_OF[fs["dtype"]],
                      "values": gen_values(rng, fs, n)})
+    if spec.get("checks") or spec.get("dtype"):
+        # conform to the frame-level constraints as well (best effort)
+        for fs in spec["columns"]:
+            for c in cols:
+                if c["name"] == fs["name"] or (fs["regex"] and model.match_regex(fs["name"], c["name"])):
+                    d = spec.get("dtype") or fs["dtype"]
+                    f2 = dict(fs, dtype=d, checks=fs["checks"] + list(spec.get("checks") or []))
+                    try:
+                        ok = satisfying(f2)
+                    except TypeError:
+                        ok = []
+                    if ok and (not fs["unique"] or len(ok) >= n):
+                        c["values"] = rng.sample(ok, n) if fs["unique"] else [rng.choice(ok) for _ in range(n)]
+                        c["phys"] = PHYS_OF[d]
     # undeclared extra column when allowed
     if not spec["strict"] and rng.random() < 0.3:
         cols.insert(rng.randint(0, len(cols)),
